@@ -126,6 +126,24 @@ impl Property for C19 {
             });
             return out;
         }
+        // W3 programs carry a model: print is a canonical function of the value,
+        // whatever the aliasing, construction order or world
+        if case.label.starts_with("W3") && cmp_stdout {
+            let w3 = crate::w3::build(&case.aux);
+            if w3.text == case.program {
+                out.probes.push("w3-model-compared".into());
+                if r.stdout != w3.stdout {
+                    out.violation = Some(Violation {
+                        clause: "print(v) is a canonical rendering that depends only on the structure of v (aliasing and construction order are invisible)".into(),
+                        signature: "rendering-not-canonical".into(),
+                        detail: format!("W3 transcript differs from the rendering model; world={}", case.world.to_json()),
+                        expected: oracle::show(&w3.stdout),
+                        observed: oracle::show(&r.stdout),
+                    });
+                    return out;
+                }
+            }
+        }
         // same world twice => identical event log (sampled)
         if case.key() % 16 == 0 {
             let r2 = ctx.run(worker, &case.program, &case.world, &plan);
